@@ -463,14 +463,14 @@ def run(ctx):
     ctx.extra["table_rows"] = len(rows)
     ctx.extra["table_runs"] = len(runs)
     ctx.extra["run_steps"] = sum(len(r) for r in runs)
-    ct = cov_traces(ctx, 60 if q else 600)
+    ct = cov_traces(ctx, 60 if q else 400)
     for t in ct:
         c = t["cfg"]
         for e in t["ev"]:
             ctx.cover("cov:%s:k%s:n%d:p%d:%s:eP%d:eQ%d:eR%d" % (e.get("filter"), e.get("k"), c["n"], c["p"], c["linear"],
                                                            c["eP"], c["eQ"], c["eR"]))
     pool = rows + [r for run_ in runs for r in run_]
-    pt = pf_traces(ctx, pool, [1000, 10000, 100000] if q else [1000, 10000, 100000, 1000000], 12 if q else 60)
+    pt = pf_traces(ctx, pool, [1000, 10000, 100000] if q else [1000, 10000, 100000, 1000000], 12 if q else 40)
     for t in pt:
         for e in t["ev"]:
             if e["act"] == "pf":
